@@ -204,10 +204,28 @@ def close_active_order(crate):
     ex = P.mk_executor(crate, cap=2, loop_bound=4, inline=[x for x in INLINE_STORAGE if "fsyncdata" not in x])
     st = State()
     iref, safe, ab, act, blob = _inner_state(crate, ex, st)
+
+    def probe(ex_, st_, name, fargs, out_ty, dty):
+        # C14: where is the blob at each suspension point?  (the slot's discriminant at the moment of the await)
+        try:
+            s_now = _safe_in(crate, st_, iref)
+            a_now = ex_.get_discr(st_, s_now.fields[(None, crate.field_index("Safe", "active_blob"))]).t
+        except Exception:
+            a_now = None
+        st_.events.append(("probe", name, a_now, None))
+        return None
+    ex.await_hook = probe
     outs = P.drive_async(ex, st, fn, [iref])
     res.paths = len(outs)
 
     def per_path(o, isok, payload):
+        for e in o.events:
+            # every suspension point other than the final push (in-memory, uncontended: assumed not to suspend) must find
+            # the blob still in the active slot: a future dropped there loses nothing
+            if e[0] == "probe" and "HierarchicalFilters::push" not in e[1] and e[2] is not None:
+                if not P.prove(ex, res, o, z3.Implies(act == BV64(1), e[2] == BV64(1)),
+                               "at the suspension point '%s' the blob is still in the active slot (a dropped future loses nothing)" % e[1][-40:]):
+                    return False
         evs = P.events_of(o)
         names = [e[1] for e in evs]
         i_sync = idx(names, "fsyncdata")
@@ -865,3 +883,84 @@ def init_ids_above_all(crate):
 
     _check_paths(ex, res, outs, per_path)
     return P.finish(ex, res, ["all three id sources present", "init failed"])
+
+
+def init_fails_only_on_callee_error(crate):
+    """C06: Storage::init_from_existing (with Storage::pop_active inlined): when the directory scan (read_blobs) succeeded
+    and every callee that can fail (open_new, load_index, dump, next_blob_name) succeeded, init succeeds — in particular
+    when every blob of the work dir was unreadable and ignored or quarantined (read_blobs returns no blobs), a fresh
+    active blob is created instead of failing with Uninitialized."""
+    res = P.ObResult("init_fails_only_on_callee_error")
+    fn = crate.method("Storage", "init_from_existing")
+    res.functions = ["Storage::init_from_existing (async body)", "Storage::pop_active (async body)"]
+    res.bounds = "<= 2 blobs returned by read_blobs, arbitrary counters, every outcome of the callees"
+    ex = P.mk_executor(crate, cap=3, loop_bound=6, inline=[r"^Inner::(get_dump_sem|config)$", r"^Storage::pop_active$", r"^Storage::pop_active::\{closure#\d+\}(::\{closure#\d+\})?$"],
+                       havoc=[r"^core::slice::(<impl[^>]*>::)?sort_by_key$", r"^std::slice::sort_by_key$", r"^Config::"])
+    st = State()
+    storage = Obj("storage::core::Storage<K>")
+    inner = Obj("storage::core::Inner<K>")
+    nb = Obj("std::sync::atomic::AtomicUsize")
+    nb.fields[(None, 7002)] = Sym(z3.BitVec("next_blob_id_before", 64), "usize")
+    inner.fields[(None, crate.field_index("Inner", "next_blob_id"))] = nb
+    ic = st.new_cell(inner)
+    arc = Obj("std::sync::Arc<storage::core::Inner<K>>")
+    arc.fields[(None, 7001)] = Ref(ic, (), True, "&storage::core::Inner<K>")
+    storage.fields[(None, crate.field_index("Storage", "inner"))] = arc
+    sc = st.new_cell(storage)
+    with_active = z3.Bool("with_active")
+    nblobs = {}
+
+    def hook(ex_, st_, name, fargs, out_ty, dty):
+        if "read_blobs" in name:
+            r = ex_.fresh(out_ty, st_, "scan")
+            rb = ex_._get_field(st_, r, "Ok", 0, "ReadBlobsResult<K>")
+            v = ex_._get_field(st_, rb, None, crate.field_index("ReadBlobsResult", "blobs"), "Vec<Blob<K>>")
+            if isinstance(v, VecV):
+                st_.pc.append(z3.ULE(v.len.t, BV64(2)))
+                nblobs["len"] = v.len.t
+            lim = BV64(1 << 40)
+            st_.pc.append(z3.ULT(ex_._get_field(st_, rb, None, crate.field_index("ReadBlobsResult", "new_corrupted_blob_count"), "usize").t, lim))
+            mb = ex_._get_field(st_, rb, None, crate.field_index("ReadBlobsResult", "max_blob_id"), "Option<usize>")
+            st_.pc.append(z3.ULT(ex_._get_field(st_, mb, "Some", 0, "usize").t, lim))
+            st_.events.append(("await", name, fargs, r))
+            return [(S.poll_ready(dty, r), None)]
+        if "count_old_corrupted_blobs" in name or name.endswith("Safe::max_id"):
+            r = ex_.fresh(out_ty, st_, "ids")
+            lim = BV64(1 << 40)
+            if "count_old_corrupted_blobs" in name:
+                st_.pc.append(z3.ULT(ex_._get_field(st_, r, None, 0, "usize").t, lim))
+                st_.pc.append(z3.ULT(ex_._get_field(st_, ex_._get_field(st_, r, None, 1, "Option<usize>"), "Some", 0, "usize").t, lim))
+            else:
+                st_.pc.append(z3.ULT(ex_._get_field(st_, r, "Some", 0, "usize").t, lim))
+            st_.events.append(("await", name, fargs, r))
+            return [(S.poll_ready(dty, r), None)]
+        return None
+    ex.await_hook = hook
+    outs = P.drive_async(ex, st, fn, [Ref(sc, (), True, "&mut storage::core::Storage<K>"), VecV("tokio::fs::DirEntry", 3, Sym(z3.BitVec("n_entries", 64), "usize")),
+                                      Sym(with_active, "bool")])
+    res.paths = len(outs)
+
+    def per_path(o, isok, payload):
+        evs = P.events_of(o)
+        fallible = []
+        scan_ok = None
+        for e in evs:
+            if e[0] not in ("await", "call") or len(e) < 4 or not isinstance(e[3], Obj):
+                continue
+            ty = e[3].ty or ""
+            if "read_blobs" in e[1]:
+                scan_ok = ex.get_discr(o, e[3]).t == BV64(0)
+            elif ty.startswith(("std::result::Result<", "Result<")):
+                fallible.append(ex.get_discr(o, e[3]).t == BV64(0))
+        if scan_ok is None:
+            return P.prove(ex, res, o, z3.Not(isok), "Ok => the directory was scanned")
+        if not P.prove(ex, res, o, z3.Implies(z3.And(scan_ok, *fallible), isok), "scan and every fallible callee succeeded => init succeeds"):
+            return False
+        if "len" in nblobs:
+            P.cover(ex, res, o, z3.And(isok, with_active, nblobs["len"] == BV64(0)), "no readable blob: fresh active blob")
+            P.cover(ex, res, o, z3.And(isok, with_active, nblobs["len"] == BV64(2)), "two blobs: last becomes active")
+        P.cover(ex, res, o, z3.And(z3.Not(isok), scan_ok), "a callee after the scan failed")
+        return True
+
+    _check_paths(ex, res, outs, per_path)
+    return P.finish(ex, res, ["no readable blob: fresh active blob", "two blobs: last becomes active", "a callee after the scan failed"])
